@@ -3354,10 +3354,13 @@ class SetInstance(object):
         if obj._status_ in del_statuses: throw_object_was_deleted(obj)
         if obj._vals_ is None: throw_db_session_is_over('read value of', obj, attr)
         setdata = obj._vals_.get(attr)
-        if setdata is None: setdata = obj._vals_[attr] = SetData()
+        if setdata is None: pass
         elif setdata.is_fully_loaded: return not setdata
         elif setdata: return False
         elif setdata.count is not None: return not setdata.count
+        cache = obj._session_cache_
+        if cache is None or not cache.is_alive: throw_db_session_is_over('read value of', obj, attr)
+        if setdata is None: setdata = obj._vals_[attr] = SetData()
         entity = attr.entity
         reverse = attr.reverse
         rentity = reverse.entity
@@ -3410,9 +3413,9 @@ class SetInstance(object):
         if obj._status_ in del_statuses: throw_object_was_deleted(obj)
         if obj._vals_ is None: throw_db_session_is_over('read value of', obj, attr)
         setdata = obj._vals_.get(attr)
-        if setdata is None: setdata = obj._vals_[attr] = SetData()
-        elif setdata.count is not None: return setdata.count
+        if setdata is not None and setdata.count is not None: return setdata.count
         if cache is None or not cache.is_alive: throw_db_session_is_over('read value of', obj, attr)
+        if setdata is None: setdata = obj._vals_[attr] = SetData()
         entity = attr.entity
         reverse = attr.reverse
         database = entity._database_
